@@ -110,6 +110,10 @@ func (c *coalescing) Run(ctx context.Context, ch chan<- struct{}) error {
 
 	// Prevent wg race condition on Close and Run.
 	c.lock.Lock()
+	if c.closed.Load() {
+		c.lock.Unlock()
+		return nil
+	}
 	c.wg.Add(1)
 	c.lock.Unlock()
 	defer c.wg.Done()
@@ -225,6 +229,11 @@ func (c *coalescing) reset() {
 func (c *coalescing) Add() {
 	c.lock.Lock()
 	defer c.lock.Unlock()
+	if c.closed.Load() {
+		// Close no longer holds the lock while it waits for the wait group, so
+		// nothing may be added to the wait group once closed.
+		return
+	}
 	c.pendingEvents++
 	c.wg.Add(1)
 	go func() {
@@ -238,10 +247,13 @@ func (c *coalescing) Add() {
 
 func (c *coalescing) Close() {
 	defer func() {
-		// Prevent wg race condition on Close and Run.
+		// Prevent wg race condition on Close and Run: once the lock has been
+		// acquired here, every wg.Add made under the lock has completed. The lock
+		// must not be held while waiting, as Run needs it on every iteration to
+		// get to the point where it observes closeCh and returns.
 		c.lock.Lock()
+		c.lock.Unlock() //nolint:staticcheck
 		c.wg.Wait()
-		c.lock.Unlock()
 	}()
 	if c.closed.CompareAndSwap(false, true) {
 		close(c.closeCh)
